@@ -1,11 +1,16 @@
 (* C01 — Contract chain state is a function of the best chain.
    Statements only; every proof is [exact lemma].
 
-   Vocabulary (Chain.v).  A [block] carries, per contract of the host, at most one change:
-   confirmed / revised (old -> new revision number) / successful / failed / v2 renewed.  A history
-   is a list of [item]s:  [HBatch n apps] = one Store.UpdateChainState transaction that disconnects
-   the n tip blocks and then connects the blocks apps (reverts first, then per applied block
-   ApplyContracts and RejectContracts(height - buffer) when height >= buffer — the order of
+   Vocabulary (Chain.v).  A [block] carries the changes of the host's contracts: confirmed /
+   revised (old -> new revision number) / successful / failed / v2 renewed.  One contract may be the
+   subject of SEVERAL changes of one block, in the combinations consensus allows ([block_ok]: a v1
+   formation whose element carries the revisions confirmed in the same block — confirmed + revised
+   from 0; a v2 contract revised and resolved in one block; Chain.v lists, with the rule of core
+   behind each clause, what remains excluded); [evl1_of id b]/[evl2_of id b] are the changes of
+   contract id in block b in the order ApplyContracts (and RevertContracts) goes through them.  A
+   history is a list of [item]s:  [HBatch n apps] = one Store.UpdateChainState transaction that
+   disconnects the n tip blocks and then connects the blocks apps (reverts first, then per applied
+   block ApplyContracts and RejectContracts(height - buffer) when height >= buffer — the order of
    contracts.Manager.UpdateChainState);  [HRescan] = ResetChainState followed by processing the
    whole best chain again from its first block;  [HOp o] = any other store operation (add, revise,
    renew, fund/debit account ...), which may also fail.  [wf_hist] is the consensus discipline:
@@ -15,13 +20,14 @@
    mentioned).  [best_chain l []] is the chain the history ends on.
    [spec1 buffer neg id K] / [spec2 ...] are the chain columns (status, formation
    confirmed / confirmation index, confirmed revision number, resolution height / index) that
-   processing ONLY the blocks of K, in order, on a store that never saw a block gives contract id
-   with negotiation height neg (rejected once a processed height exceeds neg + buffer while
-   unconfirmed).  [heqv1]/[heqv2]: equal, except that an unconfirmed contract may be pending on
-   one side and rejected on the other (the one-way rejection). *)
+   processing ONLY the blocks of K, in order — per block the list of the contract's changes, then
+   the rejection — on a store that never saw a block gives contract id with negotiation height neg
+   (rejected once a processed height exceeds neg + buffer while unconfirmed).
+   [heqv1]/[heqv2]: equal, except that an unconfirmed contract may be pending on one side and
+   rejected on the other (the one-way rejection). *)
 From HostdBase Require Import Base.
 From HostdContracts Require Import Model Build Lib Inv InvOps Chain BuildProofs PerContract Proj Rows
-  SpecLemmas Steps Plain Rescan Hist RejCause ProofsC01 Wfb.
+  SpecLemmas Steps Plain Rescan Hist RejCause ProofsC01 Wfb SameBlock.
 Local Open Scope N_scope.
 
 (* Every well-formed history — any interleaving of batches of reverts and applies, rescans and other
@@ -88,6 +94,92 @@ Theorem c01_inverse_v2 : forall (i : idx) (e : pev2) (x : ch2),
 Proof. exact inverse_v2. Qed.
 Print Assumptions c01_inverse_v2.
 
+(* ... and for the whole list of changes one block carries for one contract (any combination
+   [block_ok] admits), un-processed in the order RevertContracts uses — the same order, not the
+   reverse one *)
+Theorem c01_inverse_block_v1 : forall (h : N) (l : list pev1) (x : ch1),
+  cinv1 x -> shape1 l -> valid_evs1 h l x ->
+  heqv1 (rspec_evs1 l (spec_evs1 h l x)) x /\ (h_st x <> Rejected -> rspec_evs1 l (spec_evs1 h l x) = x).
+Proof. exact inverse_block_v1. Qed.
+Print Assumptions c01_inverse_block_v1.
+
+Theorem c01_inverse_block_v2 : forall (i : idx) (l : list pev2) (x : ch2),
+  cinv2 x -> shape2 l -> valid_evs2 i l x ->
+  heqv2 (rspec_evs2 l (spec_evs2 i l x)) x /\ (g_st x <> R2 -> rspec_evs2 l (spec_evs2 i l x) = x).
+Proof. exact inverse_block_v2. Qed.
+Print Assumptions c01_inverse_block_v2.
+
+(* Several changes of one contract in one block, explicitly.  A v2 contract revised AND resolved
+   (renewal / storage proof / expiration) in one block: both are recorded — from any reachable
+   store, connecting the block leaves the contract resolved at that block with the revised
+   revision as its confirmed one (fix d7434ff). *)
+Theorem c01_same_block_revision_and_resolution :
+  forall (buffer : N) (s : state) (K : list block) (b : block) (id : N) (c : c2) (o n : N) (e : pev2),
+  reachable buffer s K -> bvalid buffer (negof1 s) (negof2 s) K b ->
+  find2 id (cs2 s) = Some c -> evl2_of id b = [PRev2 o n; e] -> is_res2 e = true ->
+  exists s' c', hrun buffer [HBatch 0 [b]] (s, K) = ROk (s', b :: K) /\ J buffer s' (b :: K) /\
+    find2 id (cs2 s') = Some c' /\
+    s2 c' = res_status e /\ res2 c' = Some (bidx b) /\ elem2 c' = Some n /\ conf2 c' = conf2 c.
+Proof. exact reachable_same_block_revision_and_resolution. Qed.
+Print Assumptions c01_same_block_revision_and_resolution.
+
+(* A v1 formation whose created element carries revision k (revisions confirmed in the block of
+   the formation are folded into it): the contract becomes active with k as its confirmed
+   revision, so a host whose latest revision is k reports it confirmed
+   (fixes/C01-formation-carries-revision.patch). *)
+Theorem c01_formation_with_folded_revision :
+  forall (buffer : N) (s : state) (K : list block) (b : block) (id : N) (c : c1) (k : N),
+  reachable buffer s K -> bvalid buffer (negof1 s) (negof2 s) K b ->
+  find1 id (cs1 s) = Some c -> evl1_of id b = [PForm1; PRev1 0 k] ->
+  exists s' c', hrun buffer [HBatch 0 [b]] (s, K) = ROk (s', b :: K) /\ J buffer s' (b :: K) /\
+    find1 id (cs1 s') = Some c' /\
+    s1 c' = Active /\ formed c' = true /\ confRev c' = k /\ resH c' = None.
+Proof. exact reachable_formation_with_folded_revision. Qed.
+Print Assumptions c01_formation_with_folded_revision.
+
+(* non-vacuity: a well-formed history (buffer 2) whose blocks form a v1 contract with folded
+   revision 3, revise-and-renew and revise-and-prove a v2 contract in one block; such blocks are
+   connected, disconnected, crossed again, the folded formation is undone (confirmed revision 0
+   again) and redone, followed by a rescan.  Columns shown: v1 (status, formation confirmed,
+   confirmed revision, revision reported confirmed, resolution height), v2 (status, resolution
+   index, revision of the stored element, revision reported confirmed), chain length. *)
+Example c01_same_block_nonvacuous :
+  wf_hist 2 sb_demo (init, []) /\
+  sb_cols (firstn 4 sb_demo) = Some ([(Active, true, 3, true, None)], [(A2, None, Some 0, false)], 2%nat) /\
+  sb_cols (firstn 5 sb_demo) = Some ([(Active, true, 3, true, None)], [(N2, Some (3, 3), Some 7, true)], 3%nat) /\
+  sb_cols (firstn 6 sb_demo) = Some ([(Active, true, 3, true, None)], [(A2, None, Some 0, false)], 2%nat) /\
+  sb_cols (firstn 8 sb_demo) = Some ([(Successful, true, 3, true, Some 3)], [(S2, Some (3, 4), Some 7, true)], 3%nat) /\
+  sb_cols (firstn 9 sb_demo) = Some ([(Pending, false, 0, false, None)], [(P2, None, None, false)], 1%nat) /\
+  sb_cols sb_demo = Some ([(Active, true, 3, true, None)], [(N2, Some (3, 3), Some 7, true)], 4%nat).
+Proof. exact sb_demo_ok. Qed.
+
+(* Legacy: the two behaviours of buildContractState before the repairs ([build1_legacy] /
+   [build2_legacy], SameBlock.v), each refuted on a consistent store by one valid block made of
+   one merged element diff: the row the legacy code leaves is not what the chain gives.
+   v1: formation and revision 1 in one block — the revision stays unconfirmed. *)
+Theorem c01_formation_with_folded_revision_legacy_refuted :
+  legacy_refuted [mkFD 1 true true 1 None false false false] [].
+Proof. exact legacy_formation_with_folded_revision_refuted. Qed.
+Print Assumptions c01_formation_with_folded_revision_legacy_refuted.
+
+(* v2: revision and renewal in one block — the renewal is dropped, the contract stays active. *)
+Theorem c01_same_block_revision_and_resolution_legacy_refuted :
+  legacy_refuted [] [mkFD2 1 true false 0 (Some 7) (Some KRenewal)].
+Proof. exact legacy_same_block_revision_and_resolution_refuted. Qed.
+Print Assumptions c01_same_block_revision_and_resolution_legacy_refuted.
+
+(* KNOWN FINDING (v1-revision-and-proof-same-block-revert-keeps-revision).  One combination
+   consensus allows is NOT covered by [block_ok]: a revision and a storage proof of one v1 contract
+   in the block at the height of its window start.  core overwrites the element of the merged diff
+   with the revised contract, so the revision the chain held before is not in what hostd is
+   given: connecting records both changes (repaired), disconnecting leaves the reverted revision
+   as the confirmed one.  Witness: a contract whose chain revision is 0, the diff core produces
+   for "revised to 2 and proven" connected and disconnected through buildContractState. *)
+Theorem c01_v1_revision_and_proof_revert_refuted :
+  connect_disconnect_refuted (mkFD 1 true false 2 (Some 2) true true false).
+Proof. exact v1_revision_and_proof_revert_refuted. Qed.
+Print Assumptions c01_v1_revision_and_proof_revert_refuted.
+
 (* A full rescan after a chain-state reset never fails and ends where it started. *)
 Theorem c01_rescan : forall (buffer : N) (s : state) (K : list block),
   J buffer s K ->
@@ -95,6 +187,23 @@ Theorem c01_rescan : forall (buffer : N) (s : state) (K : list block),
              (forall id, negof1 s' id = negof1 s id) /\ (forall id, negof2 s' id = negof2 s id).
 Proof. exact rescan_J. Qed.
 Print Assumptions c01_rescan.
+
+(* KNOWN FINDING (rescan-onto-different-chain-keeps-old-chain-state).  The property also demands
+   this after "a full rescan after a chain-state reset" in general.  c01_rescan covers the rescan
+   of the chain processed before the reset (HRescan; later extended or reorganised by ordinary
+   batches).  When the chain processed after the reset is a different one — the consensus
+   database was replaced, which is what index.Manager resets for — the statement FAILS:
+   ResetChainState keeps every chain column and the "skipping rescan state transition" branches
+   keep them, so a contract whose formation is not on the new chain still reports active.
+   [rescan_onto buffer s K'] = ResetChainState, then the blocks of K' in order.  Witness
+   (buffer 18): form contract 1 in block (2,2); rescan onto the chain [(1,1); (2,3)] without the
+   formation. *)
+Theorem c01_rescan_other_chain_refuted :
+  exists (buffer : N) (s : state) (K K' : list block) (s' : state),
+    reachable buffer s K /\ chain_ok buffer (negof1 s) (negof2 s) K' /\
+    rescan_onto buffer s K' = ROk s' /\ ~ agrees_with_chain buffer s' K'.
+Proof. exact rescan_other_chain_refuted. Qed.
+Print Assumptions c01_rescan_other_chain_refuted.
 
 Theorem c01_reachable_is_J : forall (buffer : N) (s : state) (K : list block),
   reachable buffer s K -> J buffer s K.
@@ -138,14 +247,52 @@ Theorem c01_rejected_only_with_cause : forall l : list op,
 Proof. exact rejected_has_cause. Qed.
 Print Assumptions c01_rejected_only_with_cause.
 
-(* The blocks of this file are what the contract manager hands to the store: buildContractState
-   (Build.v, tied to host/contracts/update.go by its own correspondence run) maps the element diffs
-   of a block to [changes_of false b] when connecting and to [changes_of true b] — the PREVIOUS
-   revision numbers — when disconnecting. *)
-Theorem c01_build_state_gives_block_changes : forall (revert : bool) (b : block),
-  build_state revert (map diff1_of (evs1 b)) (map diff2_of (evs2 b)) = Some (changes_of revert b).
+(* The blocks of this file are what the contract manager hands to the store.  buildContractState
+   (Build.v, tied to host/contracts/update.go by its own correspondence run) maps the element
+   diffs of a consensus update — core merges everything a block does to one contract into ONE
+   diff — to the StateChanges of a block: whatever it returns for diffs (l1, l2) is
+   [changes_of false] of the block [block_of_diffs i l1 l2] when connecting and [changes_of true]
+   of the same block — the PREVIOUS revision numbers — when disconnecting ... *)
+Theorem c01_build_state_gives_block_changes :
+  forall (revert : bool) (i : idx) (l1 : list fdiff) (l2 : list fdiff2) (ch : changes),
+  build_state revert l1 l2 = Some ch -> ch = changes_of revert (block_of_diffs i l1 l2).
 Proof. exact build_state_block. Qed.
 Print Assumptions c01_build_state_gives_block_changes.
+
+(* ... it fails only on a diff that is neither created, revised nor resolved ... *)
+Theorem c01_build_state_total : forall (revert : bool) (l1 : list fdiff) (l2 : list fdiff2),
+  forallb flagged1 l1 = true -> forallb flagged2 l2 = true -> exists ch, build_state revert l1 l2 = Some ch.
+Proof. exact build_state_total. Qed.
+Print Assumptions c01_build_state_total.
+
+(* ... and with one diff per contract id (MidState.elements) of the kinds consensus produces
+   ([dshape1]: a v1 diff is not both revised and resolved) that block is [block_ok] and carries
+   for every contract exactly the changes of its own diff ([dev1]/[dev2]: created => confirmed +
+   revised from 0; revised, then resolved), in ApplyContracts order. *)
+Theorem c01_merged_diffs_give_ok_blocks : forall (i : idx) (l1 : list fdiff) (l2 : list fdiff2),
+  NoDup (map fd_id l1) -> NoDup (map gd_id l2) -> forallb dshape1 l1 = true ->
+  block_ok (block_of_diffs i l1 l2) /\
+  (forall d, In d l1 -> evl1_of (fd_id d) (block_of_diffs i l1 l2) = dev1 d) /\
+  (forall d, In d l2 -> evl2_of (gd_id d) (block_of_diffs i l1 l2) = dev2 d).
+Proof.
+  exact (fun i l1 l2 n1 n2 sh => conj (merged_diffs_block_ok i l1 l2 n1 n2 sh)
+           (conj (fun d hd => evl1_block_of i l1 l2 d n1 hd) (fun d hd => evl2_block_of i l1 l2 d n2 hd))).
+Qed.
+Print Assumptions c01_merged_diffs_give_ok_blocks.
+
+(* Conversely every [block_ok] block is, contract by contract, the block of its own merged diffs
+   ([diffs1_of]/[diffs2_of]: one diff per contract id the block mentions, all its changes merged
+   the way MidState does), provided a formation is recorded with the revision of its created
+   element, as the repaired buildContractState does: the blocks the theorems quantify over are
+   exactly the blocks of consensus-shaped diffs. *)
+Theorem c01_block_is_block_of_its_merged_diffs : forall b : block,
+  block_ok b -> (forall id, evl1_of id b <> [PForm1]) ->
+  let b' := block_of_diffs (bidx b) (diffs1_of b) (diffs2_of b) in
+  NoDup (map fd_id (diffs1_of b)) /\ NoDup (map gd_id (diffs2_of b)) /\
+  forallb dshape1 (diffs1_of b) = true /\
+  (forall id, evl1_of id b' = evl1_of id b) /\ (forall id, evl2_of id b' = evl2_of id b).
+Proof. exact block_of_its_diffs. Qed.
+Print Assumptions c01_block_is_block_of_its_merged_diffs.
 
 (* ... and one batch reaches the store in the order of Manager.UpdateChainState ([manager_calls],
    tied to the code by its own correspondence run on real chain updates): all reverts first, then
